@@ -20,14 +20,14 @@ CLAIMED = {
         design="5/C20"),
     "C01": dict(
         engine="E1-kernel-in-the-loop",
-        technique="Coq proof: reachability invariant of the closed system (library machine || scripted child || pipe kernel) by induction over steps, a natural-number measure that every step of either party decreases, and a progress theorem; tied to the code by running the real Communicator against the extracted kernel model call by call",
+        technique="Coq proof: reachability invariant of the closed system (library machine || scripted child || pipe kernel) by induction over steps, a natural-number measure that every step of either party decreases, and a progress theorem; tied to the code by running the real Communicator against the extracted kernel model call by call; plus capture/communicate of real commands and pipelines (producer | consumer that leaves early, under-read input, alternating outputs above the pipe capacity) under a watchdog",
         text="Theorems C01_*: for every subset of piped streams, all pipe capacities >= PIPE_BUF, every finite child program (partial reads, writes to either stream, closes, sleeps, exit), every input and every interleaving and short-I/O choice: the invariant holds, every step of parent or child strictly decreases the measure mu (so every schedule is finite, no fairness needed), and a state with the parent inside the call always has an enabled step (never blocked on one pipe while the child is blocked on another); after the child is gone the parent alone runs to its return; a stream at EOF is never polled or read again.  The proof needs WRITE_SIZE <= PIPE_BUF, which is re-derived from the source on every run. Windows (thread-based) variant, Lib/WinComm.v: every step of helper threads, receiving thread and child decreases a measure (a read() ends after at most wmu steps under every schedule) and while a read() is in progress some party other than the clock can always move (C01_win_*).",
-        note="Trusted: Coq kernel; K (Kernel/CommK.v) models Linux pipes/poll (POLLOUT implies an atomic write of <= PIPE_BUF bytes completes; POLLHUP/POLLERR rules), validated by E1 not proved; simdrive interposers; extraction + spsim glue.  The cfg(windows) thread-based communicator is not modelled.  Exec::capture / Pipeline::capture reach the same loop through Popen::communicate_start (exercised by E2). The cfg(windows) `mod raw` is cut out of /repo's source and run on Linux on real pipes (harness/windrive); its result sequences must be among those Kernel/WinSim.v enumerates for the model (order of rendezvous is the only freedom left by the driver).  C01_win_never_stuck holds since the repair of F17.",
+        note="Trusted: Coq kernel; K (Kernel/CommK.v) models Linux pipes/poll (POLLOUT implies an atomic write of <= PIPE_BUF bytes completes; POLLHUP/POLLERR rules), validated by E1 not proved; simdrive interposers; extraction + spsim glue.  K's assumption that a pipe's ends are held only by the two parties (no third process keeps a read end open) is C08's theorem about the spawn path; C01's check exercises it end to end with real pipelines whose consumer leaves early.  Exec::capture / Pipeline::capture reach the same loop through Popen::communicate_start (real-process part of the check). The cfg(windows) `mod raw` is cut out of /repo's source and run on Linux on real pipes (harness/windrive); its result sequences must be among those Kernel/WinSim.v enumerates for the model (order of rendezvous is the only freedom left by the driver).  C01_win_never_stuck holds since the repair of F17.",
         design="5/C01"),
     "C02": dict(
         engine="E1-kernel-in-the-loop",
         technique="Coq proof: ghost-state invariant (returned ++ in-flight ++ in-pipe = written, per stream; got ++ in-pipe ++ unsent = input) preserved by every step, with short reads/writes as universally quantified kernel choices; kernel-in-the-loop correspondence with position-tagged bytes",
-        text="Theorems C02_*: at every reachable state, also under limits and timeouts, nothing is lost, duplicated, reordered or moved between streams; an unlimited Ok read returned exactly what the child wrote with every captured stream at EOF, stdin closed and the whole input delivered (a child reading to EOF got exactly the input); Option-ness mirrors the piped streams; the call right after the write that exhausts the input is close(stdin). Windows thread variant: C02_win_bytes_exact / C02_win_optionness -- per stream, what earlier reads returned ++ the current read ++ the parked excess ++ the chunk a helper holds ++ the pipe = what the child wrote, at every reachable state of every interleaving.",
+        text="Theorems C02_*: at every reachable state, also under limits and timeouts, nothing is lost, duplicated, reordered or moved between streams; an unlimited Ok read returned exactly what the child wrote with every captured stream at EOF, stdin closed and the whole input delivered (a child reading to EOF got exactly the input); Option-ness mirrors the piped streams; the call right after the write that exhausts the input is close(stdin), and whenever poll reports stdin writable with input pending the next call is the write of the next chunk whatever the output streams report (input and EOF are not withheld while output is produced). Windows thread variant: C02_win_bytes_exact / C02_win_optionness -- per stream, what earlier reads returned ++ the current read ++ the parked excess ++ the chunk a helper holds ++ the pipe = what the child wrote, at every reachable state of every interleaving.",
         note="Trusted: as C01.  The text-returning variants are compared with String::from_utf8_lossy of the model's byte result by the harness (not a theorem). Thread variant tied as in C01.",
         design="5/C02"),
     "C03": dict(
@@ -81,7 +81,7 @@ CLAIMED = {
     "C06": dict(
         engine="E2-logged-real-spawns",
         technique="Coq proof (structural: prepare is the function from a request to the execve arguments; environment de-duplication proved equal to 'keep the last binding of each name' by induction, getenv on the block = last binding; NUL refusal by case analysis) + real launches of a self-reporting stub with the logged chdir/execve arguments judged by the extracted model (cross-checked by vm_compute) + hook differential of format_env",
-        text="Theorems C06_*: for every argument vector, executable, environment list, cwd over arbitrary byte strings (unbounded lengths and counts): what reaches execve is the vector byte for byte (argv[0] stays the program name under an executable override), the block is exactly one name=value entry per distinct name carrying its last value (getenv on it = last binding; nothing else), None means inherit, cwd as given; a NUL in any argument, the executable, any name, any surviving value or the cwd is refused with EINVAL and issues no exec, and a NUL-free request is never refused; in the launch model the refusal precedes the fork, and exactly the requested chdir/setgid/setuid/setpgid are applied, the group before the user; the Windows block builder is proved case-insensitive last-wins, double-NUL terminated.",
+        text="Theorems C06_*: for every argument vector, executable, environment list, cwd over arbitrary byte strings (unbounded lengths and counts): what reaches execve is the vector byte for byte (argv[0] stays the program name under an executable override), the block is exactly one name=value entry per distinct name carrying its last value (getenv on it = last binding; nothing else), None means inherit, cwd as given; a NUL in any argument, the executable, any name, any surviving value or the cwd is refused with EINVAL and issues no exec, and a NUL-free request is never refused; in the launch model the refusal precedes the fork, and exactly the requested chdir/setgid/setuid/setpgid are applied, the directory entered before the identity is given up (C06_cwd_entered_with_parent_identity) and the group changed before the user; the Windows block builder is proved case-insensitive last-wins, double-NUL terminated.",
         note="Trusted: Coq kernel; extraction (ExtrOcamlBasic only) cross-checked by vm_compute on small cases; realdrive interposers and the stub's self-report; that the kernel passes execve's vectors to the image unchanged (cross-checked).  A NUL inside a value that a later duplicate name shadows is dropped with its entry by the code and is therefore not refused: the theorem says 'surviving value', the generators do not plant NUL in shadowed values.  setuid/setgid to other users needs the check to run as root (it does here); otherwise only the own ids are used.",
         design="5/C06"),
     "C12": dict(
